@@ -309,6 +309,12 @@ class SymRat:
             return self._nd[1]
         except AttributeError:
             pass
+        lf = _linear_over_grid(self.z)
+        if lf is not None:
+            # value is (alpha*N + beta) with N the declared integer grid variable: a concrete common
+            # denominator and a linear integer numerator (a non-reduced pair; see C13 for the scale lemma)
+            object.__setattr__(self, '_nd', lf)
+            return lf[1]
         d = E.fresh('int', 'den')
         E._add(z3.And(d >= 1, (d == 1) == z3.IsInt(self.z)))
         object.__setattr__(self, '_nd', (None, SymInt(d)))
@@ -327,6 +333,28 @@ class SymRat:
 
     @property
     def denominator(self): return self._den()
+
+
+def _linear_over_grid(z):
+    """(SymInt numerator, int denominator) when z == alpha*N + beta for the single declared grid variable N
+    (Engine.rational_over) and rational constants alpha, beta; else None"""
+    gv = getattr(E, 'grid_vars', None)
+    if not gv or len(gv) != 1:
+        return None
+    N = gv[0]
+    vals = []
+    for k in (0, 1, 2):
+        v = z3.simplify(z3.substitute(z, (N, z3.IntVal(k))))
+        if not z3.is_rational_value(v):
+            return None
+        vals.append(Fraction(v.numerator_as_long(), v.denominator_as_long()))
+    beta, alpha = vals[0], vals[1] - vals[0]
+    if vals[2] - vals[1] != alpha:
+        return None
+    import math
+    q = alpha.denominator * beta.denominator // math.gcd(alpha.denominator, beta.denominator)
+    num = SymInt._mk(int(alpha * q) * N + int(beta * q))
+    return (num if isinstance(num, SymInt) else SymInt(z3.IntVal(num)), q)
 
 
 class SymDec(SymRat, Decimal):
